@@ -93,10 +93,22 @@ func runHistory(s kvs.Storage, cfg config, base time.Time) ([]hist.Rec, map[stri
 				// inmem only: now and then the record written carries an expiry that has already passed - it is
 				// logically absent at once but physically there until somebody touches it (lazy purge paths)
 				var expAt *time.Time
+				short := int64(0)
 				gone := cfg.Backend == "inmem" && c.rng.Intn(7) == 0
 				if gone {
 					t := time.Now().Add(-time.Millisecond)
 					expAt = &t
+				} else if c.rng.Intn(7) == 0 {
+					// an expiry a few milliseconds ahead: it passes while the history runs. From then on the record
+					// may be found absent (the in-memory store does, miniredis - no clock of its own - keeps
+					// serving it), but a key seen absent never comes back without a write
+					d := time.Duration(1500+c.rng.Intn(5000)) * time.Microsecond
+					if cfg.Backend == "inmem" {
+						d = time.Duration(10+c.rng.Intn(200)) * time.Microsecond // its histories last some 100 us
+					}
+					t := time.Now().Add(d)
+					expAt = &t
+					short = int64(t.Sub(base))
 				} else if c.rng.Intn(4) == 0 {
 					// an expiry far in the future: nothing expires during a history, but value, version and expiry
 					// of one write belong together (see expiryOfAnotherWrite)
@@ -171,7 +183,7 @@ func runHistory(s kvs.Storage, cfg config, base time.Time) ([]hist.Rec, map[stri
 					} else if e == hist.EOther {
 						out.Msg = err.Error()
 					}
-					c.recs = append(c.recs, hist.Rec{Client: c.id, In: hist.In{Kind: hist.KCreate, Key: key, Val: val, Gone: gone}, Out: out, Call: call, Ret: ret})
+					c.recs = append(c.recs, hist.Rec{Client: c.id, In: hist.In{Kind: hist.KCreate, Key: key, Val: val, Gone: gone, ExpAt: short}, Out: out, Call: call, Ret: ret})
 				case op < 34:
 					call := now()
 					r, err := s.Get(ctx, key)
@@ -208,7 +220,7 @@ func runHistory(s kvs.Storage, cfg config, base time.Time) ([]hist.Rec, map[stri
 					} else {
 						out.Msg = err.Error()
 					}
-					c.recs = append(c.recs, hist.Rec{Client: c.id, In: hist.In{Kind: hist.KPut, Key: key, Val: val, Gone: gone}, Out: out, Call: call, Ret: ret})
+					c.recs = append(c.recs, hist.Rec{Client: c.id, In: hist.In{Kind: hist.KPut, Key: key, Val: val, Gone: gone, ExpAt: short}, Out: out, Call: call, Ret: ret})
 				case op < 72:
 					exp := c.lastVer[key]
 					switch c.rng.Intn(5) {
@@ -235,7 +247,7 @@ func runHistory(s kvs.Storage, cfg config, base time.Time) ([]hist.Rec, map[stri
 					} else if e == hist.EOther {
 						out.Msg = err.Error()
 					}
-					c.recs = append(c.recs, hist.Rec{Client: c.id, In: hist.In{Kind: hist.KCas, Key: key, Val: val, Exp: exp, Gone: gone}, Out: out, Call: call, Ret: ret})
+					c.recs = append(c.recs, hist.Rec{Client: c.id, In: hist.In{Kind: hist.KCas, Key: key, Val: val, Exp: exp, Gone: gone, ExpAt: short}, Out: out, Call: call, Ret: ret})
 				case op < 82:
 					call := now()
 					err := s.Delete(ctx, key)
@@ -292,6 +304,7 @@ func runHistory(s kvs.Storage, cfg config, base time.Time) ([]hist.Rec, map[stri
 					}
 					recs := make([]kvs.Record, len(keys))
 					vals := make([]string, len(keys))
+					shorts := make([]int64, len(keys))
 					for i, k := range keys {
 						vals[i] = fmt.Sprintf("%s.%d", val, i)
 						if same && c.lastVal[k] != "" {
@@ -307,7 +320,9 @@ func runHistory(s kvs.Storage, cfg config, base time.Time) ([]hist.Rec, map[stri
 							supMu.Unlock()
 						}
 						itemExp := expAt
+						shorts[i] = short
 						if !gone && c.rng.Intn(3) == 0 {
+							shorts[i] = 0
 							// mixed batches: some items carry an expiry far in the future (nothing expires during a
 							// history; the backends take different code paths for such batches)
 							t := time.Now().Add(time.Hour)
@@ -324,7 +339,7 @@ func runHistory(s kvs.Storage, cfg config, base time.Time) ([]hist.Rec, map[stri
 						if e != hist.ENil {
 							out.Msg = err.Error()
 						}
-						c.recs = append(c.recs, hist.Rec{Client: c.id, In: hist.In{Kind: hist.KPutSym, Key: k, Val: vals[i], Gone: gone}, Out: out, Call: call, Ret: ret})
+						c.recs = append(c.recs, hist.Rec{Client: c.id, In: hist.In{Kind: hist.KPutSym, Key: k, Val: vals[i], Gone: gone, ExpAt: shorts[i]}, Out: out, Call: call, Ret: ret})
 					}
 				}
 			}
@@ -488,7 +503,7 @@ func firstNonRace(recs []hist.Rec, cfg config) int64 { return 1 << 62 }
 func TestCheck(t *testing.T) {
 	run := report.New("C02", "exploration")
 	defer run.Finish(t)
-	run.Rule("concurrent histories of T in 2..8 clients x K in 4..12 operations over 1..3 keys (mix of Create/Get/Put/CasByVersion/Delete/GetMany/PutMany with unique values and occasional re-writes of identical bytes, inmem: writes of records whose expiry has already passed (logically absent, physically awaiting the lazy purge), writes carrying an expiry far in the future, hostile Version fields and stale / made-up CAS versions; flavours: mixed, racing creators, racing CAS on one version) recorded at the client boundary and checked (1) by porcupine against the per-key sequential model, (2) for outcomes outside the documented set, (3) for injectivity of version -> write, (4) Redis, at the quiescent end of every history: records without an expiry survive, unchanged, a jump of the server clock past the expiries of the other writes (the expiry of one write must not stick to another). distinct = distinct outcome words (client, operation, key, outcome in call order) among histories in which operations of different clients on one key really overlapped in time")
+	run.Rule("concurrent histories of T in 2..8 clients x K in 4..12 operations over 1..3 keys (mix of Create/Get/Put/CasByVersion/Delete/GetMany/PutMany with unique values and occasional re-writes of identical bytes, inmem: writes of records whose expiry has already passed (logically absent, physically awaiting the lazy purge), writes carrying an expiry far in the future or a few milliseconds ahead (it passes during the history: from then on the key may be found absent, and a key seen absent never comes back without a write), hostile Version fields and stale / made-up CAS versions; flavours: mixed, racing creators, racing CAS on one version) recorded at the client boundary and checked (1) by porcupine against the per-key sequential model, (2) for outcomes outside the documented set, (3) for injectivity of version -> write, (4) Redis, at the quiescent end of every history: records without an expiry survive, unchanged, a jump of the server clock past the expiries of the other writes (the expiry of one write must not stick to another). distinct = distinct outcome words (client, operation, key, outcome in call order) among histories in which operations of different clients on one key really overlapped in time")
 	run.Assume("Redis backend runs against the in-process miniredis server with random per-command delays injected by its pre-hook")
 	run.Assume("the version reported together with ErrExist is not judged here (C03)")
 
@@ -556,6 +571,17 @@ func TestCheck(t *testing.T) {
 						mu.Lock()
 						words[h] = struct{}{}
 						mu.Unlock()
+					}
+					{
+						exp := map[string]int64{}
+						for _, r := range recs {
+							if e, ok := exp[r.In.Key]; ok && e != 0 && r.Ret >= e {
+								run.Add("operations_after_a_short_expiry_passed_"+backend, 1)
+							}
+							if r.Out.Err == hist.ENil && r.In.Kind != hist.KGet && r.In.Kind != hist.KDelete {
+								exp[r.In.Key] = r.In.ExpAt
+							}
+						}
 					}
 					for _, f := range judge(cfg, recs, supplied, run) {
 						run.Violation(f.sig, f.what, f.w)
